@@ -53,6 +53,88 @@ def value_signature(e, args):
     return 'simplify-wrong-value:' + shrink.skeleton(small), small, sargs
 
 
+def _enum_worker(job):
+    """one worker of the systematic small-tree stream: build capped pools from its own sub-seed, compare the real
+    un-simplified and simplified evaluations at two argument points; returns counters and candidate mismatches"""
+    import random
+    from . import enumexpr
+    seed, caps, dtype = job
+    rng = random.Random(seed)
+    E = enumexpr.Enum(rng, dtype=dtype)
+    pools = E.levels(len(caps), 0) if False else None
+    pools = [E.leaves]
+    cnt = collections.Counter(); cands = []; keys = set()
+    allpools = E.levels(len(caps), max(caps)) if len(set(caps)) == 1 else None
+    if allpools is None:
+        # different caps per level: build level by level with the largest cap, then trim
+        allpools = E.levels(len(caps), max(caps))
+        allpools = [allpools[0]] + [p[:cap] for p, cap in zip(allpools[1:], caps)]
+    for level, pool in enumerate(allpools[1:], 1):
+        for e in pool:
+            kind, s = simplify(e, 8)
+            cnt['trees'] += 1
+            keys.add(enumexpr.skeleton(e, 2))
+            if kind != 'ok':
+                cnt['simplify-' + kind] += 1
+                cands.append((kind, pack(e, E.args), str(s)[:200]))
+                continue
+            if s is not e: cnt['changed'] += 1
+            for args in (E.args, E.negated_args()):
+                k1, v1 = X.real_eval(e, args)
+                if k1 != 'ok':
+                    cnt['original-' + k1] += 1; continue
+                k2, v2 = X.real_eval(s, args)
+                cnt['evaluations'] += 1
+                if k2 != 'ok' or not X.arrays_close(v1, v2) or v1.dtype != v2.dtype:
+                    cands.append(('value', pack(e, args), ''))
+                    break
+    cnt['distinct-skeletons'] = len(keys)
+    return dict(cnt), cands[:20]
+
+
+def enum_stream(c, nworkers, caps):
+    """(M) systematic small-tree stream, pure real-code differential in parallel worker processes; every candidate is
+    confirmed against the Lean specification value of the un-simplified tree before it is reported"""
+    import multiprocessing
+    jobs = [((c.seed * 1000003 + w) & 0x7fffffff, caps, float if w % 4 else int) for w in range(nworkers)]
+    ctx = multiprocessing.get_context('fork')
+    with ctx.Pool(min(nworkers, 14)) as pool:
+        results = pool.map(_enum_worker, jobs, chunksize=1)
+    total = collections.Counter(); cands = []
+    for cnt, cs in results:
+        total.update(cnt); cands += cs
+    for k, v in total.items(): c.count('enum:' + k, v)
+    c.evaluations += total['trees']
+    c.extra['enum_trees'] = total['trees']
+    nbad = 0
+    seen_sigs = set()
+    for kind, packed, msg in cands[:40]:
+        e, args = pickle.loads(base64.b64decode(packed))
+        if kind in ('loop', 'hang'):
+            sig, small, sargs = termination_signature(kind, e, args)
+            c.failing_input(sig, 'simplification does not terminate (%s)' % kind, dict(kind=kind, expr=X.describe(small, sargs), pickled=pack(small, sargs)))
+            if not c.match_known(sig): nbad += 1
+            continue
+        if kind == 'exception':
+            c.failing_input('simplify-exception:' + shrink.skeleton(e), 'simplification raises: ' + msg, dict(expr=X.describe(e, args), pickled=packed)); nbad += 1
+            continue
+        sig, small, sargs = value_signature(e, args)
+        if sig in seen_sigs: continue
+        seen_sigs.add(sig)
+        # confirm with the Lean specification value of the un-simplified tree
+        k1, v1 = X.real_eval(small, sargs)
+        ks, s = simplify(small, 8)
+        k2, v2 = X.real_eval(s, sargs) if ks == 'ok' else ('exception', None)
+        req, _ = ser.request([small], sargs)
+        a = X.lean_requests(c, [req])[0]
+        spec = X.compare_result(a['results'][0], v1) if k1 == 'ok' and 'bad' not in a else 'n/a'
+        c.failing_input(sig, 'simplified expression differs from the original (systematic small-tree stream)',
+                        dict(expr=X.describe(small, sargs), pickled=pack(small, sargs), real_original=(v1.tolist() if k1 == 'ok' else repr(v1)),
+                             real_simplified=(v2.tolist() if k2 == 'ok' else repr(v2)), lean_agrees_with_original=spec))
+        nbad += 1
+    c.obligation('valid:small-tree-enumeration', nbad == 0, 'validation', '%d trees, %d distinct depth-2 skeletons' % (total['trees'], total['distinct-skeletons']))
+
+
 def run(c):
     c.rule = ('random well-typed evaluable DAGs (raw constructors, explicit sharing, bool/int/float, axis lengths 0..3, nested loops) from nvh.genexpr with '
               'dyadic argument values; a case is non-trivial when simplification changed the tree (simplified is not expr) ; distinct by nutils hash of the tree')
@@ -158,6 +240,11 @@ def run(c):
     c.extra['decided_exactly_at_sample_point_only'] = nconc
     c.obligation('corr:spec-eval', nspec_bad == 0 and nspec > 0, 'correspondence', '%d trees evaluated identically by Lean spec and real code' % nspec)
     c.obligation('valid:simplified-equals-original', not any('simplify' in v[2] for v in c.violations), 'validation', '%d symbolic + %d at sample point' % (nsym, nconc))
+    # ---- systematic small-tree enumeration (interaction space of the swap rules), parallel real-code differential
+    if c.tier == 'quick':
+        enum_stream(c, 12, (400, 1500, 1500))
+    else:
+        enum_stream(c, 56, (400, 6000, 12000))
     # ---- (M) the fixed-point driver itself (deep_replace_property) vs its Lean model, + memoisation consequences on real trees
     from . import c01driver
     c01driver.stream(c, 300 if c.tier == 'quick' else 4000)
